@@ -344,7 +344,7 @@ class Check:
             "lake_build_s": proofs.get("build_s"),
             "explanation": cfg.get("explanation", ""),
         }
-        ev = {"property_id": self.id, "tier": self.tier, "seed": self.seed, "level": cfg.get("level", "proof"),
+        ev = {"property_id": self.id, "tier": self.tier, "seed": self.seed, "level": cfg.get("level", "proof") if cfg.get("level", "proof") in ("exploration", "fault_enumeration", "model_checking", "proof", "translation_validation", "other") else "proof",
               "coverage": cov, "assumptions": cfg.get("assumptions", []), "wall_s": round(wall, 2),
               "violations": nviol}
         write_json(os.path.join(VERIF, "evidence", self.id + ".json"), ev)
